@@ -70,48 +70,41 @@ Print Assumptions C08_interrupt_structural.
    Then the whole directory is exactly as before (destination = old node, no temporary file or
    directory, nothing else changed) and every ExternalTensor keeps its validity flag. *)
 Theorem C08_exception_clean :
-  forall fs0 tens small sc c e, single_wf fs0 sc -> nul_free tens sc ->
+  forall fs0 tens small sc c e, single_wf fs0 sc ->
   crash_at c = None ->
   snd (run c fs0 tens small sc) = SRaise e ->
   ~ In (OFail true) (s_trace (fst (run c fs0 tens small sc))) ->
   (forall p, lookup (s_fs (fst (run c fs0 tens small sc))) p = lookup fs0 p)
   /\ map t_valid (s_tens (fst (run c fs0 tens small sc))) = map t_valid tens.
 Proof.
-  intros fs0 tens small sc c e Hwf Hnn Hc Hr Hn.
-  destruct (exception_clean fs0 tens small sc Hwf c e Hnn Hc Hr Hn) as (H1 & H2 & _). split; assumption.
+  intros fs0 tens small sc c e Hwf Hc Hr Hn.
+  destruct (exception_clean fs0 tens small sc Hwf c e Hc Hr Hn) as (H1 & H2 & _). split; assumption.
 Qed.
 Print Assumptions C08_exception_clean.
 
-(* KNOWN FINDING (reproduced on the implementation on every run, known_findings.d/C08.json
-   "samefile-valueerror-leaks-tempdir"): without [nul_free] the statement is false.  The list of overwritten
-   tensors is computed after mkdtemp but OUTSIDE the try block; os.path.samefile raises ValueError (embedded
-   null byte) which _paths_refer_to_same_file does not catch (it catches OSError), so the save raises and the
-   fresh temporary directory stays.  Witness: one external tensor whose location contains a NUL. *)
+(* RECORD of a repaired finding (fixed: property=C08 66e131a, key samefile-valueerror-leaks-tempdir).
+   Before the fix the list of overwritten tensors was computed after mkdtemp and outside the try;
+   os.path.samefile raises ValueError on a location with an embedded NUL, the save raised and the fresh
+   temporary directory stayed (the model of that code had `C08_samefile_valueerror_refuted`, and
+   C08_exception_clean needed the hypothesis nul_free).  The code now probes before mkdtemp, the model
+   follows (plan_pre), the hypothesis is gone, and the old witness leaves the directory untouched: *)
 Definition nul_fs : fsT := [([1%N], File [1%N; 2%N; 3%N] 420%N)].
 Definition nul_tens : list tstate :=
   [{| t_path := [0%N]; t_off := 0; t_len := 2; t_valid := true; t_map := None |}].
 Definition nul_sc : scn :=
-  {| sc_req := [1%N]; sc_tmpd := [7%N]; sc_tensors := [(0, TExt 0)]; sc_chunk := 4; sc_cb := None; sc_cbbase := 0 |}.
-Theorem C08_samefile_valueerror_refuted :
-  exists fs0 tens small sc c e,
-    single_wf fs0 sc /\ crash_at c = None /\ snd (run c fs0 tens small sc) = SRaise e
-    /\ ~ In (OFail true) (s_trace (fst (run c fs0 tens small sc)))
-    /\ lookup (s_fs (fst (run c fs0 tens small sc))) (sc_tmpd sc) <> lookup fs0 (sc_tmpd sc).
-Proof.
-  exists nul_fs, nul_tens, [], nul_sc, no_ctl, ValueError. split; [|vm_compute; repeat split; try discriminate].
-  - unfold single_wf. split; [|split; [reflexivity|discriminate]].
-    intros [|x p] H; [discriminate|].
-    change (is_prefix (sc_tmpd nul_sc) (x :: p)) with (N.eqb 7 x && is_prefix [] p) in H.
-    apply andb_prop in H. destruct H as [H _]. apply N.eqb_eq in H. subst x. reflexivity.
-  - intros [H|[H|[H|[]]]]; discriminate.
-Qed.
-Print Assumptions C08_samefile_valueerror_refuted.
+  {| sc_req := [1%N]; sc_tmpd := [7%N]; sc_tensors := [(0, TExt 0)]; sc_chunk := 4; sc_cb := None; sc_cbbase := 0;
+     sc_aliases := [] |}.
+Theorem C08_samefile_valueerror_before_fix :
+  snd (run no_ctl nul_fs nul_tens [] nul_sc) = SRaise ValueError
+  /\ s_fs (fst (run no_ctl nul_fs nul_tens [] nul_sc)) = nul_fs.
+Proof. vm_compute. split; reflexivity. Qed.
+Print Assumptions C08_samefile_valueerror_before_fix.
 
 (* ... and every external tensor (in particular those backed by the destination) is as valid as before
    and tobytes() returns what it returned before.  Coherence hypothesis: a tensor that was memory-mapped
    before the save had mapped the file's then-current content. *)
 Theorem C08_exception_tensors_read_old :
-  forall fs0 tens small sc c e, single_wf fs0 sc -> nul_free tens sc ->
+  forall fs0 tens small sc c e, single_wf fs0 sc ->
   crash_at c = None ->
   snd (run c fs0 tens small sc) = SRaise e ->
   ~ In (OFail true) (s_trace (fst (run c fs0 tens small sc))) ->
@@ -132,15 +125,18 @@ Theorem C08_sharded_never_overwrites :
 Proof. intros fs0 tens small shards c H. exact (sharded_never_overwrites c fs0 tens small shards H). Qed.
 Print Assumptions C08_sharded_never_overwrites.
 
-(* A tensor is invalid afterwards only if it was invalid before or its backing file is the destination
-   (samefile) and the destination was actually replaced. *)
+(* A tensor is invalid afterwards only if it was invalid before, or it passed samefile with the destination
+   AND os.path.realpath(tensor.path) = os.path.realpath(destination) (its own path is the replaced one - a
+   tensor reading through ANOTHER hard link of the old inode, sc_aliases, is released but stays valid;
+   fixed: property=C08 8df84db) and the destination was actually replaced. *)
 Theorem C08_invalidate_only_if_replaced :
   forall fs0 tens small sc c h, single_wf fs0 sc ->
   let dest := dest_of fs0 (sc_req sc) in
   let s := fst (run c fs0 tens small sc) in
   nth_error (map t_valid (s_tens s)) h = Some false ->
   nth_error (map t_valid tens) h = Some false
-  \/ (In h (overwritten fs0 tens sc) /\ In (OReplace (tmpf_of sc dest) dest) (s_trace s)
+  \/ (In h (overwritten fs0 tens sc) /\ realpath_is_dest fs0 tens sc h = true
+      /\ In (OReplace (tmpf_of sc dest) dest) (s_trace s)
       /\ exists d m, lookup (s_fs s) dest = Some (File d m)).
 Proof. intros fs0 tens small sc c h Hwf. exact (invalidate_only_if_replaced fs0 tens small sc Hwf c h). Qed.
 Print Assumptions C08_invalidate_only_if_replaced.
@@ -159,11 +155,11 @@ Definition ex_tens : list tstate :=
   [{| t_path := [1%N]; t_off := 1; t_len := 2; t_valid := true; t_map := None |}].
 Definition ex_sc : scn :=
   {| sc_req := [1%N]; sc_tmpd := [7%N]; sc_tensors := [(0, TExt 0); (2, TMem [5%N; 6%N; 7%N])];
-     sc_chunk := 1; sc_cb := Some None; sc_cbbase := 0 |}.
+     sc_chunk := 1; sc_cb := Some None; sc_cbbase := 0; sc_aliases := [] |}.
 (* Ctrl-C (KeyboardInterrupt) delivered while the progress callback of the second tensor runs *)
 Definition ex_sc_kbd : scn :=
   {| sc_req := [1%N]; sc_tmpd := [7%N]; sc_tensors := [(0, TExt 0); (2, TMem [5%N; 6%N; 7%N])];
-     sc_chunk := 1; sc_cb := Some (Some (1, OtherError)); sc_cbbase := 0 |}.
+     sc_chunk := 1; sc_cb := Some (Some (1, OtherError)); sc_cbbase := 0; sc_aliases := [] |}.
 
 Example ex_wf : single_wf ex_fs ex_sc.
 Proof.
@@ -190,10 +186,23 @@ Example ex_keyboard_interrupt_clean :
   snd (run no_ctl ex_fs ex_tens [] ex_sc_kbd) = SRaise OtherError /\ is_base_exception OtherError = true
   /\ s_fs (fst (run no_ctl ex_fs ex_tens [] ex_sc_kbd)) = ex_fs.
 Proof. vm_compute. repeat split; reflexivity. Qed.
-Example ex_nul_free : nul_free ex_tens ex_sc.
-Proof. reflexivity. Qed.
+(* another hard link [2] of the destination's inode: the tensor reading through it is released (samefile) but
+   stays valid and keeps reading the old bytes; the tensor on the destination path itself is invalidated *)
+Definition hl_fs : fsT := [([1%N], File [1%N; 2%N; 3%N; 4%N] 420%N); ([2%N], File [1%N; 2%N; 3%N; 4%N] 420%N)].
+Definition hl_tens : list tstate :=
+  [{| t_path := [2%N]; t_off := 1; t_len := 2; t_valid := true; t_map := None |};
+   {| t_path := [1%N]; t_off := 0; t_len := 2; t_valid := true; t_map := None |}].
+Definition hl_sc : scn :=
+  {| sc_req := [1%N]; sc_tmpd := [7%N]; sc_tensors := [(0, TExt 0); (2, TExt 1)]; sc_chunk := 8; sc_cb := None;
+     sc_cbbase := 0; sc_aliases := [[2%N]] |}.
+Example ex_hardlink_alias_stays_valid :
+  overwritten hl_fs hl_tens hl_sc = [0; 1] /\ invalidated hl_fs hl_tens hl_sc = [1]
+  /\ map t_valid (s_tens (fst (run no_ctl hl_fs hl_tens [] hl_sc))) = [true; false]
+  /\ lookup (s_fs (fst (run no_ctl hl_fs hl_tens [] hl_sc))) [2%N] = Some (File [1%N; 2%N; 3%N; 4%N] 420%N)
+  /\ lookup (s_fs (fst (run no_ctl hl_fs hl_tens [] hl_sc))) [1%N] = Some (File [2%N; 3%N; 1%N; 2%N] 420%N).
+Proof. vm_compute. repeat split; reflexivity. Qed.
 Example ex_image : image ex_fs ex_tens (sc_tensors ex_sc) = [2%N; 3%N; 5%N; 6%N; 7%N].
 Proof. vm_compute. reflexivity. Qed.
 Example ex_shard_wf : Forall (shard_wf ex_fs) [ {| sc_req := [3%N]; sc_tmpd := [7%N]; sc_tensors := [(0, TMem [5%N])];
-     sc_chunk := 1; sc_cb := None; sc_cbbase := 0 |} ].
+     sc_chunk := 1; sc_cb := None; sc_cbbase := 0; sc_aliases := [] |} ].
 Proof. constructor; [|constructor]. unfold shard_wf. simpl. repeat split; discriminate. Qed.
